@@ -225,6 +225,13 @@ def build(S):
         S.under_contract(C03.FN_FPOL, C03.FN_FPP)
         S.contract("fpol/fpolprime/pressure/Bt_axis", C03.FN_FPP, C03.run_profiles, shape="scalar")
         C18_dct.add(S)
+        # the hand-over INTO the interpolation on the g-file route: the node coordinates and the
+        # psi[x, y] order handed to the constructor are those of the file (off-centre Z grids included)
+        from . import C17
+
+        S.under_contract(C17.FN_RG)
+        S.contract("read_geqdsk[3x4,wall]", C17.FN_RG, C17.run_read_geqdsk(3, 4, True), shape="nx=3, ny=4, symbolic rleft, rdim, zmid, zdim")
+        S.contract("read_geqdsk[5x3,nowall]", C17.FN_RG, C17.run_read_geqdsk(5, 3, False), shape="nx=5, ny=3")
 
 
 def post(S):
